@@ -31,6 +31,7 @@ import Verif.Model.Common
     jwk.go/x5c.go/nebula.go  the `cast.SafeUint64(opts.ValidAfter.RelativeTime(t).Unix())` token modifiers
     authority/tls.go  Sign (lifetime), renewContext (duration, lifetime)
     cas/softcas/softcas.go  CreateCertificate / RenewCertificate date arithmetic (+ DER second precision)
+    go.step.sm/crypto sshutil.toValidity (template validAfter/validBefore → uint64, `templateValidity`)
     authority/ssh.go  renewSSH / rekeySSH date arithmetic
     api/ssh.go identityModifier, api/sshRenew.go + api/sshRekey.go renewIdentityCertificate (`identityRenew`)
     authority/provisioners.go claimsToLinkedca / claimsToCertificates (`migrateClaims`)
@@ -502,6 +503,27 @@ def sshSign (cl : Claimer) (m : SshMode) (now : Int) (user tok : SshOpts) (c0 : 
   let mods ← tokenMods now tok
   sshSignWith cl m now user mods c0
 
+/-- go.step.sm/crypto/sshutil `toValidity` (called by `Certificate.GetCertificate` inside
+    `Authority.signSSH`): what a certificate template's `validAfter` / `validBefore` (a `time.Time`,
+    zero when the template does not mention it) becomes on the `ssh.Certificate`.
+    `utils.MustUint64(t.Unix())` panics for an instant before 1970. -/
+def templateValidity (t : Int) : Out U64 := if t = 0 then .ok 0#64 else castU64 (unixOf t)
+
+/-- the certificate a template with these validity instants produces -/
+def sshTemplateCert (tva tvb : Int) (ctype : Nat) : Out SshCert := do
+  let va ← templateValidity tva
+  let vb ← templateValidity tvb
+  pure ⟨va, vb, ctype⟩
+
+/-- `/ssh/sign` for a provisioner whose SSH template sets `validAfter` / `validBefore` (`tva`, `tvb`; 0 = the
+    template does not set it, as in the default templates): token modifiers are derived first
+    (`AuthorizeSSHSign`), then the template is rendered and converted, then `signSSH` continues. -/
+def sshSignTemplate (cl : Claimer) (m : SshMode) (now : Int) (user tok : SshOpts) (tva tvb : Int) (ctype : Nat) :
+    Out SshCert := do
+  let mods ← tokenMods now tok
+  let c0 ← sshTemplateCert tva tvb ctype
+  sshSignWith cl m now user mods c0
+
 /-- authority/ssh.go renewSSH / rekeySSH date arithmetic (`anow` = the authority's `time.Now()`), as of
     fix b334f43: `sshCertificateDuration` refuses (400) `ValidBefore < ValidAfter` and periods longer than
     `MaxInt64/1e9` seconds before the (now safe) `cast.Int64` and the nanosecond product. -/
@@ -576,6 +598,86 @@ def sshRenewWithIdentity (anow casNow backdate : Int) (old : SshCert) : Out (Ssh
     blocks are written only when `enableSSHCA` is set and true. -/
 def migrateClaims (sshEnabled : Bool) (c : Option Claims) : Option Claims :=
   c.map fun c => if sshEnabled then c else { minTLS := c.minTLS, maxTLS := c.maxTLS, defTLS := c.defTLS }
+
+/-! ## Which chain every provisioner installs (source-derived: re-extracted with go/ast on every run) -/
+
+inductive XMod where
+  | dflt   -- `profileDefaultDuration(p.ctl.Claimer.DefaultTLSCertDuration())`
+  | limit  -- `profileLimitDuration{Claimer.DefaultTLSCertDuration(), credential.NotBefore, credential.NotAfter}`
+  deriving Repr, DecidableEq
+
+inductive SMod where
+  | dflt   -- `&sshDefaultDuration{p.ctl.Claimer}`
+  | limit  -- `&sshLimitDuration{p.ctl.Claimer, credential.NotAfter}`
+  deriving Repr, DecidableEq
+
+/-- the validity-relevant `SignOption`s one `Authorize…` method returns -/
+structure ChainEntry where
+  fn : String
+  x509 : Option XMod := none
+  /-- `newValidityValidator(Claimer.MinTLSCertDuration(), Claimer.MaxTLSCertDuration())` -/
+  x509Val : Bool := false
+  /-- `sshCertValidAfterModifier` / `sshCertValidBeforeModifier` from the token's options, both through `cast.SafeUint64` -/
+  sshTok : Bool := false
+  ssh : Option SMod := none
+  /-- `&sshCertValidityValidator{p.ctl.Claimer}` -/
+  sshVal : Bool := false
+  /-- `&sshCertDefaultValidator{}` -/
+  sshDVal : Bool := false
+  deriving Repr, DecidableEq
+
+def chainTable : List ChainEntry := [
+  { fn := "ACME.AuthorizeSign", x509 := some .dflt, x509Val := true },
+  { fn := "AWS.AuthorizeSSHSign", ssh := some .dflt, sshVal := true, sshDVal := true },
+  { fn := "AWS.AuthorizeSign", x509 := some .dflt, x509Val := true },
+  { fn := "Azure.AuthorizeSSHSign", ssh := some .dflt, sshVal := true, sshDVal := true },
+  { fn := "Azure.AuthorizeSign", x509 := some .dflt, x509Val := true },
+  { fn := "GCP.AuthorizeSSHSign", ssh := some .dflt, sshVal := true, sshDVal := true },
+  { fn := "GCP.AuthorizeSign", x509 := some .dflt, x509Val := true },
+  { fn := "JWK.AuthorizeSSHSign", sshTok := true, ssh := some .dflt, sshVal := true, sshDVal := true },
+  { fn := "JWK.AuthorizeSign", x509 := some .dflt, x509Val := true },
+  { fn := "K8sSA.AuthorizeSSHSign", ssh := some .dflt, sshVal := true, sshDVal := true },
+  { fn := "K8sSA.AuthorizeSign", x509 := some .dflt, x509Val := true },
+  { fn := "Nebula.AuthorizeSSHRekey" },
+  { fn := "Nebula.AuthorizeSSHSign", sshTok := true, ssh := some .limit, sshVal := true, sshDVal := true },
+  { fn := "Nebula.AuthorizeSign", x509 := some .limit, x509Val := true },
+  { fn := "OIDC.AuthorizeSSHSign", ssh := some .dflt, sshVal := true, sshDVal := true },
+  { fn := "OIDC.AuthorizeSign", x509 := some .dflt, x509Val := true },
+  { fn := "SCEP.AuthorizeSign", x509 := some .dflt, x509Val := true },
+  { fn := "SSHPOP.AuthorizeSSHRekey", sshVal := true, sshDVal := true },
+  { fn := "X5C.AuthorizeSSHSign", sshTok := true, ssh := some .limit, sshVal := true, sshDVal := true },
+  { fn := "X5C.AuthorizeSign", x509 := some .limit, x509Val := true },
+  { fn := "base.AuthorizeSSHRekey" }, { fn := "base.AuthorizeSSHSign" }, { fn := "base.AuthorizeSign" },
+  { fn := "noop.AuthorizeSSHRekey" }, { fn := "noop.AuthorizeSSHSign" }, { fn := "noop.AuthorizeSign" } ]
+
+/-- canonical rendering, the format the harness extractor prints -/
+def ChainEntry.render (e : ChainEntry) : String :=
+  let items : List String :=
+    (match e.x509 with | some .dflt => ["def(D)"] | some .limit => ["lim(D,CNB,CNA)"] | none => []) ++
+    (if e.x509Val then ["val(MIN,MAX)"] else []) ++
+    (if e.sshTok then ["tokva", "tokvb"] else []) ++
+    (match e.ssh with | some .dflt => ["sshdef(C)"] | some .limit => ["sshlim(C,CNA)"] | none => []) ++
+    (if e.sshVal then ["sshval(C)"] else []) ++
+    (if e.sshDVal then ["sshdval"] else []) ++
+    (if e.sshTok then ["casts(safe=2,panicking=0)"] else [])
+  if items.isEmpty then "-" else " ".intercalate items
+
+/-- order in which the authority applies things (anchors in source order), which the chain functions
+    `x509Sign`, `sshSignTemplate`/`sshSignWith`, `sshRenewDates`, `sshRekey`, `x509Renew` follow -/
+def orderTable : List (String × String) := [
+  ("signX509", "modifiers<validators<enforcers<lifetime<cas"),
+  ("signSSH", "template<modifyValidity<modifiers<sign<validators"),
+  ("renewSSH", "duration<va<vb<sign"),
+  ("rekeySSH", "duration<va<vb<sign<validators"),
+  ("renewContext", "duration<lifetime<cas") ]
+
+def XMod.toMode : XMod → Int → Int → Mode
+  | .dflt, _, _ => .dflt
+  | .limit, lnb, lna => .limit lnb lna
+
+def SMod.toMode : SMod → GTime → SshMode
+  | .dflt, _ => .dflt
+  | .limit, lna => .limit lna
 
 /-! ## Historic (pre-fix) variants, kept for the refutation witnesses D6 / D7 -/
 
